@@ -326,6 +326,64 @@ impl C14 {
                 rep.count("transport_header.update_checksum_ipv4");
             }
         }
+        // IPv6: the upper-layer packet length of the pseudo header is a 32 bit field. Lengths that no
+        // longer fit 16 bit are accepted, so they have to be *encoded exactly*: the only place the field
+        // shows is the checksum, which is compared with the reference over (pseudo header with the
+        // true 32 bit length, header, payload) for every door.
+        #[cfg(not(miri))]
+        {
+            let src6 = [0x11u8; 16];
+            let dst6 = [0x22u8; 16];
+            let mut ip6h = Ipv6Header::default();
+            ip6h.source = src6;
+            ip6h.destination = dst6;
+            let lens = [65535 - hl, 65536 - hl, 65536, 65537, 70_000, 131_072 + 3];
+            let len = lens[rng.usize_below(lens.len())];
+            let mut seg = tcp.to_bytes().to_vec();
+            let payload = rng.bytes(len);
+            seg.extend_from_slice(&payload);
+            let want = crate::refmodel::checksum::tcp_v6(src6, dst6, &seg[..hl], &payload);
+            let mut doors: Vec<(&'static str, Result<u16, String>)> = Vec::new();
+            doors.push(("TcpHeader::calc_checksum_ipv6", tcp.calc_checksum_ipv6(&ip6h, &payload).map_err(|e| format!("{:?}", e))));
+            doors.push(("TcpHeader::calc_checksum_ipv6_raw", tcp.calc_checksum_ipv6_raw(src6, dst6, &payload).map_err(|e| format!("{:?}", e))));
+            let hs = TcpHeaderSlice::from_slice(&seg).unwrap();
+            doors.push(("TcpHeaderSlice::calc_checksum_ipv6", hs.calc_checksum_ipv6(&Ipv6HeaderSlice::from_slice(&ip6h.to_bytes()).unwrap(), &payload).map_err(|e| format!("{:?}", e))));
+            doors.push(("TcpHeaderSlice::calc_checksum_ipv6_raw", hs.calc_checksum_ipv6_raw(src6, dst6, &payload).map_err(|e| format!("{:?}", e))));
+            let ts = TcpSlice::from_slice(&seg).unwrap();
+            doors.push(("TcpSlice::calc_checksum_ipv6", ts.calc_checksum_ipv6(src6, dst6).map_err(|e| format!("{:?}", e))));
+            let mut th = TransportHeader::Tcp(tcp.clone());
+            let r = th.update_checksum_ipv6(&ip6h, &payload).map_err(|e| format!("{:?}", e));
+            doors.push(("TransportHeader::update_checksum_ipv6(tcp)", r.map(|_| match &th {
+                TransportHeader::Tcp(t) => t.checksum,
+                _ => 0,
+            })));
+            for (api, got) in doors {
+                rep.evals += 1;
+                match (&got, want) {
+                    (Ok(g), Some(w)) if *g == w => rep.count(&format!("pseudo6_exact.{}", api)),
+                    _ => rep.violation(
+                        &format!("pseudo_header_length_not_encoded_exactly|{}", api),
+                        format!("{}: TCP segment of {} bytes over IPv6: checksum {:?}, the pseudo header with the 32 bit length {} gives {:?}", api, hl + len, got, hl + len, want),
+                        &[],
+                    ),
+                }
+            }
+            // ICMPv6: same 32 bit field
+            let icmp = Icmpv6Type::EchoRequest(IcmpEchoHeader { id: 1, seq: 2 });
+            let mut msg = vec![128u8, 0, 0, 0, 0, 1, 0, 2];
+            msg.extend_from_slice(&payload);
+            let want = crate::refmodel::checksum::icmpv6(src6, dst6, &msg);
+            let got = icmp.calc_checksum(src6, dst6, &payload).map_err(|e| format!("{:?}", e));
+            rep.evals += 1;
+            match (&got, want) {
+                (Ok(g), Some(w)) if *g == w => rep.count("pseudo6_exact.Icmpv6Type::calc_checksum"),
+                _ => rep.violation(
+                    "pseudo_header_length_not_encoded_exactly|Icmpv6Type::calc_checksum",
+                    format!("ICMPv6 message of {} bytes: checksum {:?}, reference {:?}", msg.len(), got, want),
+                    &[],
+                ),
+            }
+        }
         // 2^32 limits: the reject side never reads the payload
         #[cfg(not(miri))]
         {
